@@ -52,14 +52,17 @@ class World:
         self.sa = sa
         self.engine = sa.create_engine("sqlite:///" + os.path.join(_tmpdir(), "c47.db"))
         Base = declarative_base()
+        from harness.lib_orm2 import odd_mixin
 
-        class P(Base):
+        Odd = odd_mixin("id", "a")
+
+        class P(Odd, Base):
             __tablename__ = "p"
             id = sa.Column(sa.Integer, primary_key=True, autoincrement=False)
             a = sa.Column(sa.Integer)
             children = relationship("C", viewonly=True, order_by="C.id", lazy="select")
 
-        class C(Base):
+        class C(Odd, Base):
             __tablename__ = "c"
             id = sa.Column(sa.Integer, primary_key=True, autoincrement=False)
             pid = sa.Column(sa.Integer, sa.ForeignKey("p.id"), nullable=True)
